@@ -1254,11 +1254,11 @@ func ruleNoReceiveOnAfterFuncTimer(c *Ctx, rule string) {
 // never receives. So the arming call must lie on the success edge of the first WriteTo.
 func ruleArmAfterFirstWrite(c *Ctx, rule string) {
 	w := c.W
-	c.Rule(rule, "in PerformTransaction (helpers included) every call of Transaction.StartRtxTimer is dominated by the err == nil edge of the socket WriteTo of the request", 1)
+	c.Rule(rule, "in PerformTransaction (helpers included) every call of Transaction.StartRtxTimer is dominated by the err == nil edge of the socket WriteTo of the request — or is made, like that WriteTo and the clean-up of its failure (the transaction leaves trMap before the lock is released), inside one continuous hold of Client.mutexTrMap, which the callback armed acquires before it looks the transaction up", 1)
 	pt := w.Func("turn", "Client", "PerformTransaction")
 	start := w.Func("client", "Transaction", "StartRtxTimer")
 	c.Anchor(rule, "PerformTransaction")
-	n := 0
+	n, nLocked := 0, 0
 	bad := ""
 	for _, fn := range w.helpersOf(pt) {
 		w.eachInstr(fn, func(in ssa.Instruction) {
@@ -1275,6 +1275,10 @@ func ruleArmAfterFirstWrite(c *Ctx, rule string) {
 					}
 				}
 			}
+			if !okEdge && armedUnderCallbackLock(w, call) {
+				okEdge = true
+				nLocked++
+			}
 			if !okEdge {
 				bad = w.instrPos(in)
 			}
@@ -1283,9 +1287,100 @@ func ruleArmAfterFirstWrite(c *Ctx, rule string) {
 	switch {
 	case n == 0:
 		c.Bad(rule, fname(pt), "arm", w.pos(pt.Pos()), "PerformTransaction no longer arms the retransmission timer: anchor gone")
+	case bad == "" && nLocked > 0:
+		c.OK(rule, fname(pt), "arm", w.pos(pt.Pos()), fmt.Sprintf("%d arming call(s); %d armed before the first WriteTo inside one hold of Client.mutexTrMap that lasts until the write's failure has been cleaned up, the lock the timer callback takes before it looks the transaction up", n, nLocked))
 	case bad != "":
 		c.Bad(rule, fname(pt), "arm", bad, "the retransmission timer is armed without the first write having succeeded: if that write stalls past the RTO and fails, the callback already running deletes the transaction and blocks in WriteResult (nobody receives) with Client.mutexTrMap held, while PerformTransaction waits for that lock on its error path — the transaction, Close and the whole client hang")
 	default:
 		c.OK(rule, fname(pt), "arm", w.pos(pt.Pos()), fmt.Sprintf("%d arming call(s), each on the success edge of the first WriteTo", n))
 	}
+}
+
+// armedUnderCallbackLock: the arming call is made with Client.mutexTrMap write-held; the
+// request's WriteTo follows in the same hold; on the WriteTo's error edge the transaction is
+// deleted from trMap before that hold ends; and the callback armed (a method value of the
+// client) has the lock held wherever it touches trMap. A callback that fires while the write
+// is still blocked then waits for the lock and finds the outcome already dealt with.
+func armedUnderCallbackLock(w *World, arm *ssa.Call) bool {
+	const class = "turn.Client.mutexTrMap"
+	li := w.lockInfo()
+	fn := arm.Parent()
+	if !holds(li.mustAt(arm), class, true) {
+		return false
+	}
+	// the WriteTo that follows, in the same hold
+	var wr *ssa.Call
+	w.eachInstr(fn, func(in ssa.Instruction) {
+		if c2, ok := in.(*ssa.Call); ok && c2.Call.IsInvoke() && c2.Call.Method.Name() == "WriteTo" && instrDominates(arm, c2) && wr == nil {
+			wr = c2
+		}
+	})
+	if wr == nil || !holds(li.mustAt(wr), class, true) {
+		return false
+	}
+	released := false
+	w.eachInstr(fn, func(in ssa.Instruction) {
+		if c2, ok := in.(*ssa.Call); ok {
+			if lo := w.lockOpOf(&c2.Call); lo != nil && lo.class == class && lo.op == "Unlock" && instrReaches(arm, c2) && instrReaches(c2, wr) {
+				released = true
+			}
+		}
+	})
+	if released {
+		return false
+	}
+	// failure edge: Delete from trMap with the lock still held, on every path to the exit
+	errV := extractOf(wr, 1)
+	if errV == nil {
+		return false
+	}
+	isDelete := func(in ssa.Instruction) bool {
+		c2, ok := in.(*ssa.Call)
+		if !ok || c2.Call.StaticCallee() == nil || c2.Call.StaticCallee().Name() != "Delete" {
+			return false
+		}
+		return strings.Contains(c2.Call.StaticCallee().String(), "TransactionMap") && holds(li.mustAt(c2), class, true)
+	}
+	okFail := false
+	for _, b := range fn.Blocks {
+		iff, isIf := b.Instrs[len(b.Instrs)-1].(*ssa.If)
+		if !isIf {
+			continue
+		}
+		for i, sb := range b.Succs {
+			for _, f := range normCond(iff.Cond, i == 0) {
+				if v, isNil, isNF := nilFact(f); isNF && !isNil && w.resolveLoad(v) == errV {
+					if ok, _ := mustPassBefore(sb, isDelete, func(*ssa.BasicBlock) bool { return false }); ok {
+						okFail = true
+					} else {
+						return false
+					}
+				}
+			}
+		}
+	}
+	if !okFail {
+		return false
+	}
+	// the callback: a method of the client that touches trMap only with the lock held
+	mc, isMC := w.resolveLoad(arm.Call.Args[1]).(*ssa.MakeClosure)
+	if !isMC {
+		return false
+	}
+	cb := w.closureBody(mc)
+	if cb == nil {
+		return false
+	}
+	touches, locked := 0, true
+	w.eachInstr(cb, func(in ssa.Instruction) {
+		c2, ok := in.(*ssa.Call)
+		if !ok || c2.Call.StaticCallee() == nil || !strings.Contains(c2.Call.StaticCallee().String(), "TransactionMap") {
+			return
+		}
+		touches++
+		if !holds(li.mustAt(c2), class, true) {
+			locked = false
+		}
+	})
+	return touches > 0 && locked
 }
